@@ -425,6 +425,34 @@ func c02Run(c *core.Ctx) {
 						}))
 					}
 				}
+				// contents that look like the elements which may follow (lengths equal to an identifier of the message,
+				// the next elements written at every offset), and — for the identity elements — mobile identities of every
+				// kind, protection scheme and scheme output length: with all other elements present, and alone
+				extra := ieiConfusion(m, si)
+				if isIdentitySlot(s.Name) {
+					extra = append(extra, identityCorpus()...)
+				}
+				for _, raw := range extra {
+					b := []byte(raw)
+					if len(b) > s.Max || len(b) < s.Min || len(b) == 0 {
+						continue
+					}
+					h := hexs(b)
+					run(mk(allPresent, func(e *c02Elem) {
+						if e.Slot == si {
+							e.Len, e.Raw = len(b), h
+						}
+					}))
+					p := make([]bool, k)
+					for j, idx := range opt {
+						p[j] = idx == si
+					}
+					run(mk(p, func(e *c02Elem) {
+						if e.Slot == si {
+							e.Len, e.Raw = len(b), h
+						}
+					}))
+				}
 				c.Tick()
 			}
 			// walking values at the first and last content position
